@@ -47,10 +47,19 @@ func (e *env) isScaledPerm(gamma sc, x, y []sc) bool {
 }
 
 func (c *run) verifySimple(e *env, k int, g, gamma sc, x, y []sc, pf []byte, altered bool, what string) int {
+	return c.verifySimpleWith(e, k, g, gamma, x, y, pf, altered, what, nil)
+}
+
+// vr != nil: a verifier closure (object) with a history
+func (c *run) verifySimpleWith(e *env, k int, g, gamma sc, x, y []sc, pf []byte, altered bool, what string, vr proof.Verifier) int {
 	const name = "SimpleShuffle"
 	Gamma := e.mul(gamma, g)
-	v1 := verifyReal(e.S, name, e.simpleVerifier(k, g, Gamma), pf)
-	v2, rv := verifyRec(e.S, name, e.simpleVerifier(k, g, Gamma), pf)
+	va, vb := vr, vr
+	if vr == nil {
+		va, vb = e.simpleVerifier(k, g, Gamma), e.simpleVerifier(k, g, Gamma)
+	}
+	v1 := verifyReal(e.S, name, va, pf)
+	v2, rv := verifyRec(e.S, name, vb, pf)
 	if v1 != v2 {
 		c.rep.Fail("harness/recording-verifier-diverges", "simple shuffle: "+what, nil)
 	}
@@ -217,9 +226,17 @@ func (e *env) biffleVerifier(s *stmt) proof.Verifier {
 }
 
 func (c *run) verifyBiffle(e *env, s *stmt, pf []byte, altered bool, what string) int {
+	return c.verifyBiffleWith(e, s, pf, altered, what, nil)
+}
+
+func (c *run) verifyBiffleWith(e *env, s *stmt, pf []byte, altered bool, what string, vr proof.Verifier) int {
 	const name = "Biffle"
-	v1 := verifyReal(e.S, name, e.biffleVerifier(s), pf)
-	v2, rv := verifyRec(e.S, name, e.biffleVerifier(s), pf)
+	va, vb := vr, vr
+	if vr == nil {
+		va, vb = e.biffleVerifier(s), e.biffleVerifier(s)
+	}
+	v1 := verifyReal(e.S, name, va, pf)
+	v2, rv := verifyRec(e.S, name, vb, pf)
 	if v1 != v2 {
 		c.rep.Fail("harness/recording-verifier-diverges", "biffle: "+what, nil)
 	}
@@ -263,48 +280,87 @@ func (c *run) biffleOne(e *env) {
 	G, H := e.pt(in.g), e.pt(in.h)
 	X, Y := arr2(e.pts(in.x)), arr2(e.pts(in.y))
 	var Xb, Yb [2]kyber.Point
-	rp := newRecProver(e.S, "Biffle", e.st)
-	var err error
-	pan, msg := vh.Try(func() {
-		var pr proof.Prover
-		Xb, Yb, pr = shuffle.Biffle(e.S, G, H, X, Y, e.st)
-		err = (func(proof.ProverContext) error)(pr)(rp)
-	})
-	if pan || err != nil {
-		c.rep.Fail("shuffle.Biffle/honest-prover-fails", fmt.Sprint(msg, err), nil)
+	var pr proof.Prover
+	gd := newGuard(e, map[string][]kyber.Point{"G": {G}, "H": {H}, "X": X[:], "Y": Y[:]}, nil)
+	if pan, msg := vh.Try(func() { Xb, Yb, pr = shuffle.Biffle(e.S, G, H, X, Y, e.st) }); pan {
+		c.rep.Fail("shuffle.Biffle/honest-prover-fails", msg, nil)
 		return
 	}
-	pf := rp.Proof()
+	gd.check(c, "shuffle.Biffle")
+	gout := newGuard(e, map[string][]kyber.Point{"Xbar": Xb[:], "Ybar": Yb[:]}, nil)
 	if !e.samePlaintexts(in, X[:], Y[:], Xb[:], Yb[:]) {
 		c.rep.Fail("shuffle.Biffle/output-not-a-shuffle", "plaintext multisets differ", map[string]any{"suite": e.name})
 	}
-	if v := verifyReal(e.S, "Biffle", shuffle.BiffleVerifier(e.S, G, H, X, Y, Xb, Yb), pf); v != vOK {
-		c.rep.Fail("shuffle.Biffle/honest-proof-rejected", fmt.Sprintf("verdict %d", v), map[string]any{"suite": e.name, "proof": vh.Hex(pf)})
-	}
-	c.rep.Count(fmt.Sprintf("bf/%s/%x", e.name, pf), true)
+	// one verifier closure for every proof of this statement
+	bv := shuffle.BiffleVerifier(e.S, G, H, X, Y, Xb, Yb)
+	gd.check(c, "shuffle.BiffleVerifier")
+	gout.check(c, "shuffle.BiffleVerifier/outputs")
+	var s *stmt
+	var pi []int
 	if e.dlog {
 		dg := e.S.(*vh.DlogGroup)
 		xb := []sc{dg.ScalarOf(vh.Dlog(Xb[0])), dg.ScalarOf(vh.Dlog(Xb[1]))}
 		yb := []sc{dg.ScalarOf(vh.Dlog(Yb[0])), dg.ScalarOf(vh.Dlog(Yb[1]))}
-		pi, ok := e.isShuffle(in.g, in.h, in.x, in.y, xb, yb)
-		pri := itemsOf(rp.log, 'S')
-		r := itemsOf(rp.log, 'R')
-		p := itemsOf(rp.log, 'P')
-		if ok && len(pri) == 5 && len(r) == 1 && len(p) == 14 && !c.search {
-			beta := make([]sc, 2)
-			for i := 0; i < 2; i++ {
-				beta[pi[i]] = e.div(e.sub(xb[i], in.x[pi[i]]), in.g)
-			}
-			id := c.next()
-			c.cf.Items = append(c.cf.Items, fmt.Sprintf("(CBiffle %d %s %s %s %s %s %s %s %s %s %s %s %s %s)", id, vh.CoqBool(pi[0] == 1),
-				zSc(in.g), zSc(in.h), zSc(beta[0]), zSc(beta[1]), zScs([]sc{in.x[0], in.x[1], in.y[0], in.y[1]}),
-				zItems(pri), vh.CoqZ(ival(r[0])), zScs([]sc{xb[0], xb[1], yb[0], yb[1]}),
-				zItems(p[:8]), vh.CoqZ(ival(p[8])), vh.CoqZ(ival(p[9])), zItems(p[10:])))
-			c.rep.Index(id, "Biffle prover")
+		s = &stmt{in.g, in.h, in.x, in.y, xb, yb}
+		pi, _ = e.isShuffle(in.g, in.h, in.x, in.y, xb, yb)
+	}
+	var pf0 []byte
+	// the prover closure that Biffle returned, used for several proofs
+	for n := 0; n < 3; n++ {
+		what := fmt.Sprintf("reuse:biffle/prover-closure#%d", n+1)
+		rp := newRecProver(e.S, "Biffle", e.st)
+		var err error
+		pan, msg := vh.Try(func() { err = (func(proof.ProverContext) error)(pr)(rp) })
+		gd.check(c, "shuffle.Biffle prover")
+		gout.check(c, "shuffle.Biffle prover/outputs")
+		c.rep.Dist(what)
+		if pan || err != nil {
+			c.rep.Fail("shuffle.Biffle/honest-prover-fails", fmt.Sprint(what, msg, err), nil)
+			return
 		}
-		s := &stmt{in.g, in.h, in.x, in.y, xb, yb}
-		c.verifyBiffle(e, s, pf, false, "honest")
-		c.biffleAdversaries(e, in, s, pf)
+		pf := rp.Proof()
+		if n == 0 {
+			pf0 = pf
+		}
+		if v := verifyReal(e.S, "Biffle", bv, pf); v != vOK {
+			c.rep.Fail("shuffle.Biffle/honest-proof-rejected", fmt.Sprintf("%s verdict %d", what, v), map[string]any{"suite": e.name, "proof": vh.Hex(pf)})
+		}
+		gd.check(c, "shuffle.BiffleVerifier run")
+		c.rep.Count(fmt.Sprintf("bf/%s/%x", e.name, pf), true)
+		if e.dlog && pi != nil {
+			pri := itemsOf(rp.log, 'S')
+			r := itemsOf(rp.log, 'R')
+			p := itemsOf(rp.log, 'P')
+			if len(pri) == 5 && len(r) == 1 && len(p) == 14 && !c.search {
+				beta := make([]sc, 2)
+				for i := 0; i < 2; i++ {
+					beta[pi[i]] = e.div(e.sub(s.xb[i], in.x[pi[i]]), in.g)
+				}
+				id := c.next()
+				c.cf.Items = append(c.cf.Items, fmt.Sprintf("(CBiffle %d %s %s %s %s %s %s %s %s %s %s %s %s %s)", id, vh.CoqBool(pi[0] == 1),
+					zSc(in.g), zSc(in.h), zSc(beta[0]), zSc(beta[1]), zScs([]sc{in.x[0], in.x[1], in.y[0], in.y[1]}),
+					zItems(pri), vh.CoqZ(ival(r[0])), zScs([]sc{s.xb[0], s.xb[1], s.yb[0], s.yb[1]}),
+					zItems(p[:8]), vh.CoqZ(ival(p[8])), vh.CoqZ(ival(p[9])), zItems(p[10:])))
+				c.rep.Index(id, "Biffle prover "+what)
+			}
+			c.verifyBiffleWith(e, s, pf, false, what, bv)
+		}
+	}
+	// the verifier closure after a rejected proof, and the first proof once more
+	bad := append([]byte{}, pf0...)
+	bad[len(bad)-1] ^= 1
+	if v := verifyReal(e.S, "Biffle", bv, bad); v == vOK {
+		c.rep.Fail("shuffle.BiffleVerifier/false-statement-accepted", "mutated proof, reused verifier closure", nil)
+	}
+	if v := verifyReal(e.S, "Biffle", bv, pf0); v != vOK {
+		c.rep.Fail("shuffle.Biffle/honest-proof-rejected", "reuse:biffle/verifier-closure-after-rejection", map[string]any{"suite": e.name})
+	}
+	c.rep.Dist("reuse:biffle/verifier-closure-after-rejection")
+	gd.check(c, "shuffle.BiffleVerifier run")
+	gout.check(c, "shuffle.BiffleVerifier run/outputs")
+	if e.dlog {
+		c.verifyBiffle(e, s, pf0, false, "honest")
+		c.biffleAdversaries(e, in, s, pf0)
 	}
 }
 
@@ -427,11 +483,24 @@ func (c *run) seqOne(e *env, k, NQ int) {
 	}
 	var XX, YY [][]kyber.Point
 	var getProver func(e []kyber.Scalar) (proof.Prover, error)
+	gpts := map[string][]kyber.Point{"G": {G}, "H": {H}}
+	for j := range X {
+		gpts[fmt.Sprintf("X[%d]", j)] = X[j]
+		gpts[fmt.Sprintf("Y[%d]", j)] = Y[j]
+	}
+	gd := newGuard(e, gpts, nil)
 	pan, msg := vh.Try(func() { XX, YY, getProver = shuffle.SequencesShuffle(e.S, G, H, X, Y, e.st) })
 	if pan {
 		c.rep.Fail("shuffle.SequencesShuffle/panic", msg, nil)
 		return
 	}
+	gd.check(c, "shuffle.SequencesShuffle")
+	opts := map[string][]kyber.Point{}
+	for j := range XX {
+		opts[fmt.Sprintf("Xbar[%d]", j)] = XX[j]
+		opts[fmt.Sprintf("Ybar[%d]", j)] = YY[j]
+	}
+	gout := newGuard(e, opts, nil)
 	ev := e.rnds(NQ)
 	pr, err := getProver(ev)
 	if err != nil {
@@ -451,6 +520,59 @@ func (c *run) seqOne(e *env, k, NQ int) {
 	c.rep.Count(fmt.Sprintf("seq/%s/%x", e.name, pf), true)
 	if v != vOK {
 		c.rep.Fail("shuffle.SequencesShuffle/honest-proof-rejected", fmt.Sprintf("k=%d NQ=%d verdict=%d", k, NQ, v), map[string]any{"suite": e.name})
+	}
+	gd.check(c, "shuffle.SequencesShuffle prover + GetSequenceVerifiable + Verifier")
+	gout.check(c, "shuffle.SequencesShuffle prover + GetSequenceVerifiable + Verifier/outputs")
+	// history: the same prover again (twice), then getProver with another e, then the first e again
+	type seqRun struct {
+		ev []sc
+		rp *recProver
+	}
+	var extra []seqRun
+	ev2 := e.rnds(NQ)
+	evg := newGuard(e, nil, map[string][]sc{"e": ev, "e2": ev2})
+	for n, what := range []string{"reuse:seq/prover-closure#2", "reuse:seq/prover-closure#3-HashProve", "reuse:seq/getProver-other-e", "reuse:seq/getProver-first-e-again"} {
+		evn := ev
+		prn := pr
+		if n == 2 {
+			evn = ev2
+		}
+		if n >= 2 {
+			var e2 error
+			if prn, e2 = getProver(evn); e2 != nil {
+				c.rep.Fail("shuffle.SequencesShuffle/honest-prover-fails", what+": "+e2.Error(), nil)
+				continue
+			}
+		}
+		var pfn []byte
+		var errn error
+		var rpn *recProver
+		pan, msg := vh.Try(func() {
+			if n == 1 {
+				pfn, errn = proof.HashProve(e.S, "PairShuffle", prn)
+			} else {
+				rpn = newRecProver(e.S, "PairShuffle", e.st)
+				errn = (func(proof.ProverContext) error)(prn)(rpn)
+				pfn = rpn.Proof()
+			}
+		})
+		c.rep.Dist(what)
+		if pan || errn != nil {
+			c.rep.Fail("shuffle.SequencesShuffle/honest-prover-fails", fmt.Sprint(what, msg, errn), nil)
+			continue
+		}
+		a1, a2, a3, a4 := shuffle.GetSequenceVerifiable(e.S, X, Y, XX, YY, evn)
+		vn := verifyReal(e.S, "PairShuffle", shuffle.Verifier(e.S, G, H, a1, a2, a3, a4), pfn)
+		c.rep.Count(fmt.Sprintf("seq/%s/%x", e.name, pfn), true)
+		if vn != vOK {
+			c.rep.Fail("shuffle.SequencesShuffle/honest-proof-rejected", fmt.Sprintf("%s: k=%d NQ=%d verdict=%d", what, k, NQ, vn), map[string]any{"suite": e.name, "history": what})
+		}
+		gd.check(c, "shuffle.SequencesShuffle prover + GetSequenceVerifiable + Verifier")
+		gout.check(c, "shuffle.SequencesShuffle prover + GetSequenceVerifiable + Verifier/outputs")
+		evg.check(c, "shuffle.SequencesShuffle getProver(e)")
+		if rpn != nil {
+			extra = append(extra, seqRun{evn, rpn})
+		}
 	}
 	// every sequence decrypts to the same permutation of its plaintexts
 	key := e.div(h, g)
@@ -533,6 +655,30 @@ func (c *run) seqOne(e *env, k, NQ int) {
 				zItems(pri[:k]), zItems(pri[k:2*k]), zItems(pri[2*k:3*k]), vh.CoqZ(ival(pri[3*k])), vh.CoqZ(ival(pri[3*k+2])),
 				zItems(pri[3*k+3:]), ch, tr, v))
 			c.rep.Index(id, fmt.Sprintf("SequencesShuffle k=%d NQ=%d", k, NQ))
+		}
+		// the later runs of the history against the model: a pair shuffle on the consolidated vectors
+		for _, run := range extra {
+			consE := func(m [][]sc) []sc {
+				out := make([]sc, k)
+				for i := range out {
+					out[i] = e.zero()
+					for j := range m {
+						out[i] = e.add(out[i], e.mul(run.ev[j], m[j][i]))
+					}
+				}
+				return out
+			}
+			pri := itemsOf(run.rp.log, 'S')
+			tr, ok1 := coqPtr(itemsOf(run.rp.log, 'P'), k)
+			ch, ok2 := coqChal(itemsOf(run.rp.log, 'R'), k)
+			if ok1 && ok2 && len(pri) == 5*k+2 && !c.search {
+				id := c.next()
+				c.cf.Items = append(c.cf.Items, fmt.Sprintf("(CPairProve %d %s %s %s %s %s %s %s %s %s %s %s %s %s %s)", id,
+					zInts(pi), zSc(g), zSc(h), zScs(consE(beta)), zScs(consE(x)), zScs(consE(y)),
+					zItems(pri[:k]), zItems(pri[k:2*k]), zItems(pri[2*k:3*k]), vh.CoqZ(ival(pri[3*k])), vh.CoqZ(ival(pri[3*k+2])),
+					zItems(pri[3*k+3:]), ch, tr))
+				c.rep.Index(id, fmt.Sprintf("SequencesShuffle prover run again (history) k=%d NQ=%d", k, NQ))
+			}
 		}
 		// adversarial: one sequence altered, the consolidated pair shuffle must reject
 		in := &inst{k: k, g: g, h: h, x: cons(x), y: cons(y)}
